@@ -814,6 +814,8 @@ def run(ctx):
     meta, h24 = te.cases_c08_more(ctx)
     ctx.check_cases("parse.format-metacharacters", meta, te.check_format_meta)
     ctx.check_cases("parse.hour24-at-range-end", h24, te.check_hour24_last_day)
+    ctx.check_cases("parse.day-beyond-short-months", h24, te.check_short_month_days)
+    ctx.check_cases("create.embedded-with-other-fields", te.cases_c08_embedded(ctx), te.check_embedded_conflicts, exhaustive=True)
     import texthist
     texthist.run_history(ctx, [("random", ctx.scale(2, 40)), ("culture", ctx.scale(1, 20)), ("width", ctx.scale(1, 20))])
     ctx.check_cases("create.template", create_template_cases(ctx), c07.wrap_skips(ctx, "create.template", oracle_create_template))
@@ -860,7 +862,9 @@ def replay_op(op, failure):
               "parse.annual-partial-patterns": __import__("text_entrypoints").check_annual,
               "parse.empty-am-pm-designators": __import__("text_entrypoints").check_emptyampm,
               "parse.format-metacharacters": __import__("text_entrypoints").check_format_meta,
-              "parse.hour24-at-range-end": __import__("text_entrypoints").check_hour24_last_day}[name]
+              "parse.hour24-at-range-end": __import__("text_entrypoints").check_hour24_last_day,
+              "parse.day-beyond-short-months": __import__("text_entrypoints").check_short_month_days,
+              "create.embedded-with-other-fields": __import__("text_entrypoints").check_embedded_conflicts}[name]
         r = fn(case)
         return None if (r and "skip" in r) else r
     return c07.oracle_text_op(op.split(" "))
